@@ -65,6 +65,26 @@ fn mp_to_raw(l: L, v: &Mp) -> u128 {
     l.clamp(&r)
 }
 
+/// atan(2^-i) as Mp (alternating series; pi/4 for i = 0)
+fn atan_pow2(i: u32) -> Mp {
+    if i == 0 {
+        return pi_mp().shr_floor(2);
+    }
+    // sum (-1)^k 2^(-i(2k+1)) / (2k+1)
+    let mut sum = Big::zero();
+    let mut k = 0u32;
+    loop {
+        let sh = i * (2 * k + 1);
+        if sh >= P {
+            break;
+        }
+        let term = Big::pow2(P - sh).divrem_small(2 * k + 1).0;
+        sum = if k % 2 == 0 { sum.add(&term) } else { sum.sub(&term) };
+        k += 1;
+    }
+    sum
+}
+
 fn pi_mp() -> Mp {
     // 3.14159265358979323846264338327950288419716939937510582097494 (60 digits)
     let d = b"314159265358979323846264338327950288419716939937510582097494";
@@ -227,7 +247,21 @@ fn operands(prop: &str, op: u16, sl: L, dl: L, mode: usize, ia: Ing, ib: Ing, r1
                     let v = pi_mp().mul(&Big::from_i64(k)).shr_floor(2);
                     wrap_add(mp_to_raw(sl, &v), small(r2))
                 }
-                5 => sl.wrap(&Big::from_i64(small(r1) * (1 + (r1 >> 8) as i64 % 1000))), // tiny angles
+                5 if (r1 >> 40) & 1 == 0 => sl.wrap(&Big::from_i64(small(r1) * (1 + (r1 >> 8) as i64 % 1000))), // tiny angles
+                5 => {
+                    // CORDIC convergence points: +-atan(1) +- atan(1/2) +- ... (n terms, each truncated to the type's
+                    // resolution as the rotation does), where the residual angle becomes exactly zero; plus whole turns
+                    let n = 1 + ((r1 >> 44) % 10) as u32;
+                    let mut acc = Big::zero();
+                    for i in 0..n {
+                        let t = mp_to_raw(sl, &atan_pow2(i));
+                        let t = Big::from_u128(t);
+                        acc = if (r1 >> (50 + i)) & 1 == 1 { acc.sub(&t) } else { acc.add(&t) };
+                    }
+                    let turns = ((r2 >> 16) % 5) as i64 - 2;
+                    let two_pi = Big::from_u128(mp_to_raw(sl, &pi_mp().shl(1)));
+                    sl.wrap(&acc.add(&two_pi.mul(&Big::from_i64(turns))).add_i64(small(r2) / 2))
+                }
                 6 => wrap_add(sl.wrap(&cap), -(r1 as i64 & 0xff)),
                 _ if prop == "C17" || prop == "C12" && mode == 7 && false => pattern(sl, ia),
                 _ => {
@@ -806,6 +840,12 @@ impl Engine for Math {
     fn selftest(&self) -> Result<u64, String> {
         if isqrt(&Big::from_u64(99)) != Big::from_u64(9) || isqrt(&Big::from_u64(100)) != Big::from_u64(10) || isqrt(&Big::pow2(200)) != Big::pow2(100) {
             return Err("math isqrt selftest".into());
+        }
+        for i in 0..12u32 {
+            let a = mp::to_f64(&atan_pow2(i));
+            if (a - (0.5f64).powi(i as i32).atan()).abs() > 1e-15 {
+                return Err(format!("math atan_pow2({}) selftest: {}", i, a));
+            }
         }
         // pi
         let p = mp::to_f64(&pi_mp());
